@@ -457,9 +457,9 @@ func init() {
 			"information forks sent by the client are well-formed (name + 74 < 65536)",
 		}
 		x.Add(&Family{Name: "upload-every-cut", Quick: 16, Thor: 96, Run: runC09EveryCut})
-		// Disabled (0 cases): witness of the `.incomplete` name collision reported to the lead (docs/C09.md).
-		// Enable it once the defect is repaired in /repo or recorded in known_findings.json under this key.
-		x.Add(&Family{Name: "incomplete-suffix-witness", Quick: 0, Thor: 0, Run: runC09SuffixWitness})
+		// Witness of the `.incomplete` name collision: recorded in known_findings.json (C09, key incomplete-suffix-collision).
+		// It prints a KNOWN-FINDING line on every run; if the collision is ever repaired this family must pass.
+		x.Add(&Family{Name: "incomplete-suffix-witness", Quick: 2, Thor: 4, Run: runC09SuffixWitness})
 		x.Add(&Family{Name: "upload-histories", Quick: 48, Thor: 480, Run: runC09Histories})
 	}
 }
